@@ -368,6 +368,15 @@ func (v *objectBase) Set(key string, value Amf0) *objectBase {
 	return v
 }
 
+// Drop all properties, for unmarshal to replace (not extend) the content of the receiver,
+// so that Size() afterwards is the number of bytes consumed.
+func (v *objectBase) reset() {
+	v.lock.Lock()
+	defer v.lock.Unlock()
+
+	v.properties = []*property{}
+}
+
 func (v *objectBase) unmarshal(p []byte, eof bool, maxElems int) (err error) {
 	// if no eof, elems specified by maxElems.
 	if !eof && maxElems < 0 {
@@ -496,6 +505,7 @@ func (v *Object) UnmarshalBinary(data []byte) (err error) {
 	}
 	p = p[1:]
 
+	v.reset()
 	if err = v.unmarshal(p, true, -1); err != nil {
 		return oe.WithMessage(err, "unmarshal")
 	}
@@ -557,6 +567,7 @@ func (v *EcmaArray) UnmarshalBinary(data []byte) (err error) {
 	v.count = binary.BigEndian.Uint32(p[1:])
 	p = p[5:]
 
+	v.reset()
 	if err = v.unmarshal(p, true, -1); err != nil {
 		return oe.WithMessage(err, "unmarshal")
 	}
@@ -620,6 +631,7 @@ func (v *StrictArray) UnmarshalBinary(data []byte) (err error) {
 	v.count = binary.BigEndian.Uint32(p[1:])
 	p = p[5:]
 
+	v.reset()
 	if int(v.count) <= 0 {
 		return
 	}
